@@ -266,13 +266,13 @@ Qed.
 (* ------------------------------------------------------------------ panic containment *)
 Definition R_hyp (cf : config) (s : state) : bool :=
   negb (is_once (knd cf)) && (match s_c s with CIdle => true | _ => false end) && recovering s.
+Definition R_q (s : state) (l : label) (s' : state) : bool :=
+  if is_ecall l then true
+  else if is_env l then recovering s' && (rmu s' =? rmu s)
+  else g_active (s_g s') || (recovering s' && (rmu s' <? rmu s)).
 Definition R_con (cf : config) (s : state) : bool :=
   negb (stable cf s) &&
-  forallb (fun l => match step cf s l with
-                    | Some s' => if is_ecall l then true
-                                 else if is_env l then recovering s' && (rmu s' =? rmu s)
-                                 else g_active (s_g s') || (recovering s' && (rmu s' <? rmu s))
-                    | None => true end) all_labels.
+  forallb (fun l => match step cf s l with Some s' => R_q s l s' | None => true end) all_labels.
 Definition Rb (cf : config) (s : state) : bool := if R_hyp cf s then R_con cf s else true.
 Definition Rpb (cf : config) (s : state) : bool :=
   match step cf s GPanic with Some s' => recovering s' && (rmu s' <=? 7) | None => true end.
@@ -306,6 +306,32 @@ Qed.
 (* while the plug-in is open (Close not called) a recovering recoverer of a restartable service is
    never stuck, every transition of the code brings service.Start nearer (the cool-down timer is one
    of them), and the environment cannot push it back *)
+Lemma recovery_hyp cf s :
+  knd cf <> KOnce -> s_c s = CIdle -> recovering s = true -> R_hyp cf s = true.
+Proof.
+  intros Hn Hc Hrec. unfold R_hyp. rewrite Hc, Hrec. destruct (knd cf); [congruence | reflexivity | reflexivity].
+Qed.
+
+Lemma recovery_con cf s :
+  known_cfg cf -> reachable cf s -> R_hyp cf s = true -> R_con cf s = true.
+Proof.
+  intros Hk Hr Hh. pose proof (six_sound Rb R_six cf s Hk Hr) as H. unfold Rb in H. rewrite Hh in H. exact H.
+Qed.
+
+Lemma recovery_not_stuck cf s :
+  R_con cf s = true -> exists l s', is_env l = false /\ step cf s l = Some s'.
+Proof.
+  unfold R_con. intro H. apply andb_true_iff in H as [H1 _].
+  apply stable_false_enabled. destruct (stable cf s); [discriminate | reflexivity].
+Qed.
+
+Lemma recovery_steps cf s l s' :
+  R_con cf s = true -> step cf s l = Some s' -> R_q s l s' = true.
+Proof.
+  unfold R_con. intros H Hs. apply andb_true_iff in H as [_ H2].
+  exact (all_steps cf s (R_q s) H2 l s' Hs).
+Qed.
+
 Lemma recovery_progress cf s :
   known_cfg cf -> knd cf <> KOnce -> reachable cf s -> s_c s = CIdle -> recovering s = true ->
   (exists l s', is_env l = false /\ step cf s l = Some s') /\
@@ -313,12 +339,10 @@ Lemma recovery_progress cf s :
      if is_env l then recovering s' = true /\ rmu s' = rmu s
      else g_active (s_g s') = true \/ (recovering s' = true /\ rmu s' < rmu s)).
 Proof.
-  intros Hk Hn Hr Hc Hrec. pose proof (six_sound _ R_six cf s Hk Hr) as H. unfold Rb in H.
-  assert (Hh : R_hyp cf s = true).
-  { unfold R_hyp. rewrite Hc, Hrec. destruct (knd cf); [congruence | reflexivity | reflexivity]. }
-  rewrite Hh in H. unfold R_con in H. apply andb_true_iff in H as [H1 H2]. split.
-  - apply stable_false_enabled. destruct (stable cf s); [discriminate | reflexivity].
-  - intros l s' Hs Hne. pose proof (all_steps cf s _ H2 l s' Hs) as H3. cbn beta in H3.
+  intros Hk Hn Hr Hc Hrec.
+  pose proof (recovery_con cf s Hk Hr (recovery_hyp cf s Hn Hc Hrec)) as H. split.
+  - exact (recovery_not_stuck cf s H).
+  - intros l s' Hs Hne. pose proof (recovery_steps cf s l s' H Hs) as H3. unfold R_q in H3.
     assert (He : is_ecall l = false) by (destruct l; try reflexivity; congruence).
     rewrite He in H3. destruct (is_env l).
     + apply andb_true_iff in H3 as [A B]. split; [exact A | apply Nat.eqb_eq; exact B].
@@ -409,7 +433,7 @@ Proof. vm_compute. repeat split. Qed.
 (* ------------------------------------------------------------------ checker soundness *)
 Lemma C18_check_sound c : C18_check c = true -> C18_spec c.
 Proof.
-  unfold C18_check, C18_spec. intros H Hs Ha. rewrite Hs, Ha in H. simpl in H. split.
+  unfold C18_check, C18_spec. intros H Hs Ha. rewrite Hs, Ha in H. cbn [andb] in H. split.
   - intro Hc. rewrite Hc in H. repeat rewrite andb_true_iff in H. destruct H as [[[[H1 H2] H3] H4] H5].
     apply Nat.leb_le in H1. apply Nat.leb_le in H2. apply Nat.eqb_eq in H4.
     repeat split; try assumption.
